@@ -42,4 +42,15 @@ Theorem tie_DeltaPlus_records :
   kind_writes KDeltaPlus = DeltaPlusCurrent_forward_writes /\ kind_writes KDeltaPlus = DeltaPlusCurrent_clear_resets.
 Proof. split; reflexivity. Qed.
 
+(* the optional constructor arguments default to the values the harness assumes, for the constructor and for
+   partialconstructor alike *)
+Theorem tie_DeltaPlus_defaults :
+  mode_of_code DeltaPlusCurrent_default_interp_mode = dflt_mode /\ DeltaPlusCurrent_default_delay NM = dflt_delay NM /\
+  DeltaPlusCurrent_default_interp_tol NM = dflt_tol NM /\ DeltaPlusCurrent_default_current_overbound NM = dflt_cur_ob NM /\
+  DeltaPlusCurrent_default_spike_overbound = dflt_spk_ob /\ DeltaPlusCurrent_default_batch_size = dflt_batch /\ DeltaPlusCurrent_default_inplace = dflt_inplace /\
+  mode_of_code DeltaPlusCurrent_partial_default_interp_mode = dflt_mode /\ DeltaPlusCurrent_partial_default_interp_tol NM = dflt_tol NM /\
+  DeltaPlusCurrent_partial_default_current_overbound NM = dflt_cur_ob NM /\ DeltaPlusCurrent_partial_default_spike_overbound = dflt_spk_ob /\
+  DeltaPlusCurrent_partial_default_inplace = dflt_inplace.
+Proof. repeat split; reflexivity. Qed.
+
 End Tie.
